@@ -1,7 +1,7 @@
 (* Extraction of the C16 model (TLV codec).  ExtrOcamlBasic only: bool, option,
    list, prod, unit, sum map to OCaml's; N / Z / positive stay inductive. *)
 From Coq Require Import NArith ZArith.
-From RsM Require Import Model.Tlv Model.TlvSpec.
+From RsM Require Import Model.Tlv Model.TlvSpec Model.TlvDerive Model.TlvBuf.
 Require Import ExtrOcamlBasic.
 Extraction Language OCaml.
 Extraction "model.ml"
@@ -11,4 +11,5 @@ Extraction "model.ml"
   probe_all ocl_of
   decode encode encode_list ops_of_tree flatten w_op w_ops
   el_raw_value_legacy tlv_try_next_legacy
-  mon_no_panic mon_within mon_roundtrip mon_scalar mon_reencode.
+  mon_no_panic mon_within mon_roundtrip mon_scalar mon_reencode
+  zoo denc ddec wb_new wb_run wb_as_slice wb_write_all denc_wb mon_prefix_intact.
